@@ -153,7 +153,9 @@ def run_script(src, keys, argv, call):
 
     def to_lua(reply):        # server reply -> Lua value
         if reply is None: return False
-        if isinstance(reply, bytes): return reply.decode()
+        if isinstance(reply, bytes):
+            try: return reply.decode()
+            except UnicodeDecodeError: return reply.decode("latin1")    # Lua strings are byte strings: a binary value is only ever compared
         if isinstance(reply, list): return [to_lua(r) for r in reply]
         return reply
 
